@@ -104,6 +104,16 @@ class JSXTag:
         self.attrs: JSXTagAttrDict = JSXTagAttrDict(**kwargs)
         self.children: TagList = TagList(*args)
 
+    def __copy__(self) -> "JSXTag":
+        cls = self.__class__
+        cp = cls.__new__(cls)
+        # Instance fields (attrs and children) are shallow-copied, as in Tag.__copy__(), so
+        # that the copy can be modified without affecting the original.
+        cp.__dict__.update(
+            {key: copy.copy(value) for key, value in self.__dict__.items()}
+        )
+        return cp
+
     def extend(self, x: Iterable[TagNode]) -> None:
         self.children.extend(x)
 
@@ -127,14 +137,15 @@ class JSXTag:
                 metadata_nodes.append(x)
             return x
 
-        cp = copy.copy(self)
-        _walk_attrs_and_children(cp, tagify_tagifiable_and_get_metadata)
+        # The walk copies every JSXTag and Tag it visits (starting with this one) before
+        # storing into it, so neither self nor anything reachable from it is modified.
+        cp = _walk_attrs_and_children(self, tagify_tagifiable_and_get_metadata)
 
         # When _render_react_js()  is called on a JSXTag object, we'll recurse, but
         # instead of calling the standard Tag.get_html_string() method to format the
         # object, we'll recurse using _render_react_js(), which descends into the tree
         # and formats objects appropriately for inside of a JSX element.
-        component = _render_react_js(self, 2, "\n")
+        component = _render_react_js(cp, 2, "\n")
 
         # Ideally, we'd use document.currentScript.after() to insert the component
         # directly after the script tag, but when dynamically rendered via jQuery (i.e.,
